@@ -125,7 +125,7 @@ pub struct DefSpec {
     pub ties: bool,
 }
 
-fn shuffle<T>(rng: &mut Rng, v: &mut [T]) {
+pub fn shuffle<T>(rng: &mut Rng, v: &mut [T]) {
     for i in (1..v.len()).rev() {
         let j = rng.below(i + 1);
         v.swap(i, j);
@@ -250,10 +250,15 @@ pub fn gen_definition(rng: &mut Rng, spec: &DefSpec) -> Definition {
         Kind::BpeBytes => Model::BytePair { vocab, chars: false },
         Kind::BpeChars => Model::BytePair { vocab, chars: true },
         Kind::Unigram => {
+            // ties come in two flavours: exact ties, and near ties (sums that differ by a few 1/1024, which
+            // only an accumulator with enough precision at the 1e6 restart offset tells apart)
+            let near = spec.ties && rng.chance(1, 2);
             let scores = vocab
                 .iter()
                 .map(|_| {
-                    if spec.ties {
+                    if near {
+                        -(rng.range(0, 3) as f32) - (rng.range(0, 4) as f32) / 1024.0
+                    } else if spec.ties {
                         -(rng.range(0, 3) as f32)
                     } else {
                         -(rng.range(0, 4000) as f32) / 256.0
